@@ -163,10 +163,14 @@ def run_scenarios(job):
                 sim.remove_lock()
                 inv = record(sim, cur, res, {"abort": list(ab)}, seen)
                 sc["invs"].append(inv)
-                # which workspace was being modified when the run ended?
+                # which workspace was left incomplete when the run ended?  A later (aborted) run that
+                # re-runs / prunes / resets the path takes over the responsibility for it.
+                redone = {e[1] for e in res["log"] if e[0] in ("run", "emptyDir", "reset", "mkDir")}
+                dirty = [p for p in dirty if p not in redone]
                 if res["rc"] != 0 and res["log"]:
                     last = res["log"][-1]
-                    if last[0] in ("run", "emptyDir"):
+                    if (ab[0] == "fault" and last[0] == "run") or last[0] == "emptyDir":
+                        # script failed / was killed half way, or Bob was killed right after emptying the directory
                         dirty.append(last[1])
                 # between consecutive aborts the user may edit further or revert
                 if ai + 1 < len(plan):
@@ -245,6 +249,11 @@ def judge(ctx, rec):
             ctx.count("scenario", "clean-build-fails")
             continue
         sig = _signature(sc)
+        if not isinstance(fin["rc"], int) or any(i["rc"] in ("timeout", "harness-error") for i in sc["invs"]):
+            # time-out of a (heavily loaded) machine or a harness problem: no verdict
+            ctx.count("scenario", "no-verdict:%s" % fin["rc"])
+            ctx.skip("an invocation timed out or the harness failed (%s)" % fin["rc"])
+            continue
         if fin["rc"] != 0:
             ctx.violation("the invocation following an aborted build does not complete (%s)" % fin["error"],
                           dict(case, tail=fin["tail"]), sig + ":follow-up-fails")
